@@ -120,6 +120,7 @@ func upExec(c *hlib.RunCtx, t *simrt.Tape) (*hlib.Violation, int) {
 	rand.Reader = xReader{m}
 	defer func() { rand.Reader = saveReader }()
 	m.cfgs = append(m.cfgs, mgen.GenConfig(m.t, "v0.1.0"))
+	plainLeftover := false
 	cfgFails := t.Bool(1, 8)
 	mgen.ServeConfig(s, c.Dir, nil, func(version string, env []string) (*telemetry.UploadConfig, string, error) {
 		simrt.Yield("config:download")
@@ -199,6 +200,7 @@ func upExec(c *hlib.RunCtx, t *simrt.Tape) (*hlib.Violation, int) {
 			case 3: // staging files of the report writer
 				os.WriteFile(filepath.Join(m.loc, "local."+w+".json.tmp123"), []byte("{"), 0666)
 				os.WriteFile(filepath.Join(m.loc, w+".json.tmp456"), []byte(rep[:10]), 0666)
+				plainLeftover = t.Bool(1, 2)
 			case 4: // the debug directory's name taken by a plain file
 				os.WriteFile(filepath.Join(m.tele, "debug"), []byte("x"), 0666)
 			}
@@ -221,6 +223,22 @@ func upExec(c *hlib.RunCtx, t *simrt.Tape) (*hlib.Violation, int) {
 	m.roundMode, m.roundAsof, _, _ = parseMode(filepath.Join(m.tele, "mode"))
 	m.roundStart = s.NowT()
 	m.snapshotFiles()
+	if plainLeftover {
+		// ... under the plainest names a writer might choose, for a week of this run's files
+		var weeks []string
+		for _, mf := range m.roundFiles {
+			if mf.parseable {
+				weeks = append(weeks, mf.week)
+			}
+		}
+		sort.Strings(weeks)
+		if len(weeks) > 0 {
+			w := weeks[t.Draw(len(weeks))]
+			os.WriteFile(filepath.Join(m.loc, "local."+w+".json.tmp"), []byte("{"), 0666)
+			os.WriteFile(filepath.Join(m.loc, w+".json.tmp"), []byte(`{"Week":"`), 0666)
+			s.Probe("plain-staging-leftover")
+		}
+	}
 	hadBefore := reportWeeks(m.loc)
 	for w := range reportWeeks(m.upl) {
 		hadBefore[w] = true
